@@ -23,10 +23,12 @@ import (
 	"sort"
 	"strconv"
 	"strings"
+	"sync"
 	"testing"
 	"time"
 
 	"github.com/boltdb/bolt"
+	"github.com/gorhill/cronexpr"
 	"pgregory.net/rapid"
 
 	"verif/harness/vlib"
@@ -44,10 +46,19 @@ type croltOp struct {
 	Slow bool `json:"slow,omitempty"`
 }
 
-// croltSlowRT answers every request after 200 ms of virtual time (no network).
+// croltSlowRT answers every request after 200 ms of virtual time (no network)
+// and counts the requests per URL.
 type croltSlowRT struct{}
 
+var (
+	croltHitsMu sync.Mutex
+	croltHits   = map[string]int{}
+)
+
 func (croltSlowRT) RoundTrip(req *http.Request) (*http.Response, error) {
+	croltHitsMu.Lock()
+	croltHits[req.URL.String()]++
+	croltHitsMu.Unlock()
 	time.Sleep(200 * time.Millisecond)
 	return &http.Response{StatusCode: 200, Status: "200 OK", Proto: "HTTP/1.1", ProtoMajor: 1, ProtoMinor: 1,
 		Header: http.Header{}, Body: io.NopCloser(strings.NewReader("ok")), Request: req}, nil
@@ -73,7 +84,7 @@ func genCrolt(t *rapid.T) croltCase {
 			// a Delete that arrives while the firing loop is at work
 			c.Ops = append(c.Ops, croltOp{K: "deleteDuringWork", Account: acct, Id: id, N: rapid.SampledFrom([]int64{1e6, 50e6, 150e6, 250e6}).Draw(t, l+".after")})
 		case "add":
-			s := rapid.SampledFrom([]string{"300ms", "500ms", "1s", "1500ms", "2500ms", "0s", "150ms", "* * * * * * *", "*/2 * * * * * *"}).Draw(t, l+".sched")
+			s := rapid.SampledFrom([]string{"300ms", "500ms", "1s", "1500ms", "2500ms", "0s", "150ms", "* * * * * * *", "*/2 * * * * * *", "0 0 0 1 1 * 2001", "@700ms", "@1500ms", "@0s"}).Draw(t, l+".sched")
 			c.Ops = append(c.Ops, croltOp{K: "add", Account: acct, Id: id, Sched: s, Slow: rapid.IntRange(0, 2).Draw(t, l+".slow") == 0})
 		case "delete":
 			c.Ops = append(c.Ops, croltOp{K: "delete", Account: acct, Id: id})
@@ -91,6 +102,8 @@ func genCrolt(t *rapid.T) croltCase {
 }
 
 type croltModelJob struct {
+	never   bool   // a cron expression without a future occurrence
+	url     string // of slow jobs
 	once    bool
 	fires   int
 	addedAt time.Time
@@ -184,6 +197,9 @@ func runCrolt(c croltCase) *vlib.Outcome {
 	}
 	log.SetOutput(io.Discard)
 	http.DefaultClient.Transport = croltSlowRT{}
+	croltHitsMu.Lock()
+	croltHits = map[string]int{}
+	croltHitsMu.Unlock()
 	// start on a 10 s boundary plus the offset
 	n0 := time.Now()
 	time.Sleep(n0.Truncate(10*time.Second).Add(10*time.Second).Sub(n0) + time.Duration(c.Offset%int64(time.Second)))
@@ -295,6 +311,9 @@ func runCrolt(c croltCase) *vlib.Outcome {
 				continue
 			}
 			m.fires++
+			if m.never {
+				o.Fail("CROLT_FIRED_WITHOUT_OCCURRENCE", "%s: job %s has a schedule without a future occurrence but fired (time index key %q)", when, aid, jb.TId)
+			}
 			if m.once {
 				if m.fires > 1 {
 					o.Fail("CROLT_ONESHOT_TWICE", "%s: one-shot job %s fired %d times", when, aid, m.fires)
@@ -319,11 +338,32 @@ func runCrolt(c croltCase) *vlib.Outcome {
 		switch x.K {
 		case "add":
 			j := &Job{Account: x.Account, Id: x.Id, Expression: x.Sched}
-			if x.Slow {
-				j.URL = "http://slow.test/" + x.Account + "/" + x.Id
+			absolute := false
+			if strings.HasPrefix(x.Sched, "@") {
+				// an absolute due time (RFC3339), that far from now
+				if d, derr := time.ParseDuration(x.Sched[1:]); derr == nil {
+					j.Expression = now.Add(d).UTC().Format(time.RFC3339Nano)
+					absolute = true
+				}
+			}
+			never := false
+			if _, derr := time.ParseDuration(x.Sched); derr != nil {
+				if e, perr := cronexpr.Parse(x.Sched); perr == nil {
+					never = e.Next(now).IsZero()
+				}
+			}
+			if x.Slow || never {
+				// (a firing of a job without future occurrence does not
+				// show in the time index: count its requests)
+				j.URL = fmt.Sprintf("http://slow.test/%d/%s/%s", i, x.Account, x.Id)
 				j.Method = "GET"
 			}
 			err := cr.Add(j)
+			if never && err != nil && err != Exists {
+				// refusing a schedule without a future occurrence is fine
+				o.Label("never-occurring-schedule-refused")
+				break
+			}
 			if _, exists := model[aid]; exists {
 				if err != Exists {
 					o.Fail("CROLT_DUPLICATE_ADD", "%s: adding an existing job returned %v", when, err)
@@ -335,7 +375,7 @@ func runCrolt(c croltCase) *vlib.Outcome {
 				break
 			}
 			_, derr := time.ParseDuration(x.Sched)
-			model[aid] = &croltModelJob{once: derr == nil, addedAt: now}
+			model[aid] = &croltModelJob{once: derr == nil || absolute, addedAt: now, never: never, url: j.URL}
 		case "delete":
 			if err := cr.Delete(x.Account, x.Id); err != nil {
 				o.Fail("CROLT_DELETE_ERROR", "%s: Delete failed: %v", when, err)
@@ -379,6 +419,16 @@ func runCrolt(c croltCase) *vlib.Outcome {
 			return o
 		}
 		croltConsistent(cr, o, when)
+		for aid, m := range model {
+			if m.never {
+				croltHitsMu.Lock()
+				n := croltHits[m.url]
+				croltHitsMu.Unlock()
+				if n > 0 {
+					o.Fail("CROLT_FIRED_WITHOUT_OCCURRENCE", "%s: job %s has a schedule without a future occurrence but its request was made %d times", when, aid, n)
+				}
+			}
+		}
 		// the job table holds exactly the live jobs
 		jobs, _, _ := croltSnapshot(cr)
 		for aid := range model {
